@@ -336,6 +336,13 @@ def run(tier, replay=None):
                        "executed against the real worker (a seeded sample of %d generated; per class always the unsplit stream "
                        "and the split right after the header); trace leg: distinct (mode, scenario) kinds among %d recorded "
                        "sessions; distinct_nontrivial = behaviours executed + session kinds" % (n_beh[0], ds["runs"]))
+    with open(trace) as f:
+        for line in f:
+            o = json.loads(line)
+            if o.get("ev") == "reset" and o.get("scenario") == "back_fin" and o.get("n_b", 0) > 100000:
+                rep.add_samples([{"relay_session": {k: o[k] for k in ("mode", "scenario", "n_c", "n_b", "p_b", "slow_client_reader",
+                                                                      "slow_backend_reader", "rcvbuf") if k in o}}], 1)
+                break
     rep.extra["relay_sessions"] = ds["by_scenario"]
     rep.extra["relay_bytes"] = ds["bytes"]
     rep.extra["trace_events"] = ds["events"]
@@ -345,7 +352,7 @@ def run(tier, replay=None):
         "finished direction is drained and nothing of the other one is buffered; bytes of the OTHER direction still in the "
         "kernel at that moment may be cut (modelled as the code's policy, see spec/TcpRelay.tla)",
         "black-box pacing: segment separation is confirmed through the kernel's receive-queue length of sozu's socket "
-        "(sock_diag); TLS/WebSocket pipes and the splice(2) feature build are not driven",
+        "(sock_diag); TLS pipes and the splice(2) feature build are not driven (WebSocket-upgraded plain HTTP sessions are)",
         "partial writes of the generated/relayed header cannot be forced from outside (<= 232 bytes on a fresh socket); "
         "they are covered at model level only",
     ]
